@@ -24,6 +24,9 @@
    (cid, gpos, dir, pl, has); all laws are ACTION properties (evaluated on every transition,
    also into known nodes) and the emission is an ACTION_CONSTRAINT.
 
+   Frame conditions (FrameLaw): a transmission leaves its input array unchanged and leaves the output and
+   the response returned by the PREVIOUS transmission unchanged.
+
    Two layers:
    * the PROPERTY layer (X...): what the statement demands, written declaratively -
      XDisc (nearest integer, ties to even, merge, normalise), XIR (the response a call
@@ -49,9 +52,11 @@ CONSTANTS Configs,   \* sequence of configuration records (see harness/props/c03
 NoneV == 99          \* Python None in slice fields
 MaxN  == Len(Signals[1][1][1])
 
-VARIABLES cid, gpos, dir, pl, has, op
-vars == <<cid, gpos, dir, pl, has, op>>
-Core == <<cid, gpos, dir, pl, has>>
+VARIABLES cid, gpos, dir, pl, has, ai, op, held
+\* ai: index of the current antenna configuration in c.ants (set_num_antennas may change it between transmissions);
+\* held (ghost, like op outside the VIEW): the last successful transmission, i.e. the arrays the caller still holds
+vars == <<cid, gpos, dir, pl, has, ai, op, held>>
+Core == <<cid, gpos, dir, pl, has, ai>>
 NoOp == [k |-> "Init"]
 
 \* TLC evaluates function constructors lazily and does not memoise their elements: every array
@@ -128,7 +133,8 @@ Amps(D)  == E([i \in 1..NTaps(D) |-> RSqrtExact(D.powers[i])])
 (*    c.users = <<receivers, transmitters>>; c.pls[p][ru][tu] = AMPLITUDE (sqrt of the    *)
 (*    path loss handed to the API) of link tu -> ru for path-loss choice p >= 1.          *)
 (* ====================================================================================== *)
-C == Configs[cid]
+CfgAt(a) == LET c0 == Configs[cid] IN [c0 EXCEPT !.ant = c0.ants[a]]
+C == CfgAt(ai)                                       \* the configuration with its CURRENT antenna numbers
 Siso(c) == c.ant[1] = 0
 NR(c) == IF Siso(c) THEN 1 ELSE c.ant[1]
 NT(c) == IF Siso(c) THEN 1 ELSE c.ant[2]
@@ -145,7 +151,9 @@ TU(d, o, i) == IF d THEN o ELSE i                  \* transmitter-side index
 
 Sg(s, iu, ia, m) == LET e == Signals[s][iu][ia][m + 1] IN G(e[1], e[2])
 \* signal 3 = signal 1 + i * signal 2 (linearity)
-X(s, iu, ia, m) == IF s = 3 THEN GAdd(Sg(1, iu, ia, m), GMul(GI, Sg(2, iu, ia, m))) ELSE Sg(s, iu, ia, m)
+\* signal 4 = real part of signal 1 (handed to the API with integer / real dtypes)
+X(s, iu, ia, m) == IF s = 3 THEN GAdd(Sg(1, iu, ia, m), GMul(GI, Sg(2, iu, ia, m)))
+                   ELSE IF s = 4 THEN G(Signals[1][iu][ia][m + 1][1], 0) ELSE Sg(s, iu, ia, m)
 \* the input of a call as an array XS[iu][ia][m+1]
 XArr(c, d, s, len) == E([iu \in 1..InU(c, d) |-> E([ia \in 1..InA(c, d) |-> E([m1 \in 1..len |-> X(s, iu, ia, m1 - 1)])])])
 
@@ -336,19 +344,21 @@ MFreqY8(c, D, T, d, p, o, s) ==
 (* ====================================================================================== *)
 (* 5. Actions: one per public call                                                        *)
 (* ====================================================================================== *)
-Init == /\ cid \in 1..Len(Configs) /\ gpos = 0 /\ dir = FALSE /\ pl = 0 /\ has = FALSE /\ op = NoOp
+NoHeld == [o |-> NoOp]
+Init == /\ cid \in 1..Len(Configs) /\ gpos = 0 /\ dir = FALSE /\ pl = 0 /\ has = FALSE /\ ai = 1 /\ op = NoOp /\ held = NoHeld
+Hold(o) == [g |-> gpos, d |-> dir, p |-> pl, a |-> ai, o |-> o]
 
-\* corrupt_data(signal o.s of o.n symbols)
+\* corrupt_data(signal o.s of o.n symbols); o.n = 0 (empty input) is a valid call: memory zeros, 0 samples
 Transmit ==
   \E j \in 1..Len(C.ops) : LET o == C.ops[j] IN
-    /\ o.k = "T" /\ o.n <= MaxN /\ gpos + o.n <= C.maxpos
-    /\ gpos' = gpos + o.n /\ has' = TRUE /\ op' = o
-    /\ UNCHANGED <<cid, dir, pl>>
+    /\ o.k = "T" /\ o.n >= 0 /\ o.n <= MaxN /\ gpos + o.n <= C.maxpos
+    /\ gpos' = gpos + o.n /\ has' = TRUE /\ op' = o /\ held' = Hold(o)
+    /\ UNCHANGED <<cid, dir, pl, ai>>
 
 \* corrupt_data_in_freq_domain(signal o.s of o.n blocks, o.fft, selection o.sk / o.sel)
 TransmitFreq ==
   \E j \in 1..Len(C.ops) : LET o == C.ops[j] IN
-    /\ o.k = "F"
+    /\ o.k = "F" /\ o.n >= 1              \* zero blocks are rejected by the code (nothing to concatenate)
     /\ LET sel == SelIdx(o) IN /\ Len(sel) >= 1 /\ o.n * Len(sel) <= MaxN
                                /\ \A q \in 1..Len(sel) : sel[q] \in 0..(o.fft - 1)
     /\ gpos + o.n * o.fft <= C.maxpos
@@ -356,22 +366,23 @@ TransmitFreq ==
          /\ gpos' = (IF out = "ok" THEN (IF Dev.NoSkipBetweenBlocks THEN gpos + o.n ELSE gpos + o.n * o.fft)
                      ELSE IF out = "raises-in-block" THEN gpos + 1 ELSE gpos)
          /\ has' = (has \/ out # "raises-before")
+         /\ held' = (IF out = "ok" THEN Hold(o) ELSE held)
     /\ op' = o
-    /\ UNCHANGED <<cid, dir, pl>>
+    /\ UNCHANGED <<cid, dir, pl, ai>>
 
 \* TdlChannel.generate_impulse_response(o.n)
 GenerateIR ==
   \E j \in 1..Len(C.ops) : LET o == C.ops[j] IN
     /\ o.k = "Gen" /\ C.kind = "tdl" /\ gpos + o.n <= C.maxpos
     /\ gpos' = gpos + o.n /\ has' = TRUE /\ op' = o
-    /\ UNCHANGED <<cid, dir, pl>>
+    /\ UNCHANGED <<cid, dir, pl, ai, held>>
 
 \* switched_direction = (o.n = 1)
 SetDirection ==
   \E j \in 1..Len(C.ops) : LET o == C.ops[j] IN
     /\ o.k = "Dir" /\ dir # (o.n = 1)
     /\ dir' = (o.n = 1) /\ op' = o
-    /\ UNCHANGED <<cid, gpos, pl, has>>
+    /\ UNCHANGED <<cid, gpos, pl, has, ai, held>>
 
 \* set_pathloss(value o.n; 0 = None).  MuChannel.set_pathloss(None) raises today (documented as valid).
 PlNoneRaises(c, o) == Dev.MuSetPathlossNoneRaises /\ c.kind = "mu" /\ o.n = 0
@@ -379,22 +390,30 @@ SetPathloss ==
   \E j \in 1..Len(C.ops) : LET o == C.ops[j] IN
     /\ o.k = "PL" /\ C.kind \in {"su", "mu"} /\ o.n \in 0..Len(C.pls) /\ pl # o.n
     /\ pl' = (IF PlNoneRaises(C, o) THEN pl ELSE o.n) /\ op' = o
-    /\ UNCHANGED <<cid, gpos, dir, has>>
+    /\ UNCHANGED <<cid, gpos, dir, has, ai, held>>
+
+\* set_num_antennas(Nr, Nt) of TdlChannel / SuChannel, also AFTER transmissions ((None, None) = back to SISO): the
+\* generator position, the direction, the path loss and the last response persist; only the antenna numbers change
+SetAntennas ==
+  \E j \in 1..Len(C.ops) : LET o == C.ops[j] IN
+    /\ o.k = "Ant" /\ C.kind \in {"tdl", "su"} /\ o.n \in 1..Len(C.ants) /\ o.n # ai
+    /\ ai' = o.n /\ op' = o
+    /\ UNCHANGED <<cid, gpos, dir, pl, has, held>>
 
 \* TdlChannelProfile.get_discretize_profile for one profile of the enumerated domain
 ProfDomain(c) == {p \in [1..c.ntaps -> c.qds \X c.pws] : p[1][1] \in c.q1 /\ RIsPos(Total(p))}   \* some tap has power
 DiscretizeCase ==
   /\ C.kind = "disc"
   /\ \E p \in ProfDomain(C) : op' = [k |-> "Disc", prof |-> p]
-  /\ UNCHANGED <<cid, gpos, dir, pl, has>>
+  /\ UNCHANGED <<cid, gpos, dir, pl, has, ai, held>>
 
-Next == Transmit \/ TransmitFreq \/ GenerateIR \/ SetDirection \/ SetPathloss \/ DiscretizeCase
+Next == Transmit \/ TransmitFreq \/ GenerateIR \/ SetDirection \/ SetPathloss \/ SetAntennas \/ DiscretizeCase
 Spec == Init /\ [][Next]_vars
 
 (* ====================================================================================== *)
 (* 6. Properties                                                                          *)
 (* ====================================================================================== *)
-TypeOK == /\ cid \in 1..Len(Configs) /\ gpos \in 0..MaxPos /\ C.maxpos <= MaxPos /\ dir \in BOOLEAN /\ has \in BOOLEAN
+TypeOK == /\ cid \in 1..Len(Configs) /\ ai \in 1..Len(Configs[cid].ants) /\ gpos \in 0..MaxPos /\ C.maxpos <= MaxPos /\ dir \in BOOLEAN /\ has \in BOOLEAN
           /\ pl \in 0..(IF C.kind \in {"su", "mu"} THEN Len(C.pls) ELSE 0)
 
 \* the profile every channel is built on obeys the discretisation laws; so does every enumerated profile
@@ -403,10 +422,11 @@ DiscStep == IF op'.k = "Disc" THEN DiscLaws(op'.prof) ELSE (C.kind # "disc" => D
 \* the generator advances by n per time-domain call and by fft per frequency-domain block
 PosStep == /\ op'.k \in {"T", "Gen"} => gpos' = gpos + op'.n
            /\ op'.k = "F" => gpos' = gpos + op'.n * op'.fft
-           /\ op'.k \in {"Dir", "PL", "Disc"} => gpos' = gpos
+           /\ op'.k \in {"Dir", "PL", "Ant", "Disc"} => gpos' = gpos
 \* setters set exactly their own attribute (None included)
-SetStep == /\ op'.k = "PL" => (pl' = op'.n /\ dir' = dir)
-           /\ op'.k = "Dir" => (dir' = (op'.n = 1) /\ pl' = pl)
+SetStep == /\ op'.k = "PL" => (pl' = op'.n /\ dir' = dir /\ ai' = ai)
+           /\ op'.k = "Dir" => (dir' = (op'.n = 1) /\ pl' = pl /\ ai' = ai)
+           /\ op'.k = "Ant" => (ai' = op'.n /\ dir' = dir /\ pl' = pl /\ has' = has)
 
 \* the block size is the number of selected subcarriers, whatever way they are selected
 BlockStep == op'.k = "F" => (MBlock(op') = Len(SelIdx(op')) /\ FOutcome(op') = "ok")
@@ -419,6 +439,49 @@ LenOK(y, c, d, len) == /\ Len(y) = OutU(c, d)
 
 \* a failing law names itself on TLC's output (the harness reads the LAWFAIL line)
 Chk(name, b) == IF b THEN TRUE ELSE (PrintT(<<"LAWFAIL", name>>) /\ FALSE)
+
+\* the exact observables of call o made in configuration c at generator position g, direction d, path loss p
+ExpectedAt(c, g, d, p, o) ==
+  LET D == XDisc(c.prof) IN
+  IF o.k = "T" THEN LET IR == XIR(c, D, g, p, o) IN
+       [y |-> XTimeY(c, D, IR, d, o), ir |-> IR, delays |-> D.delays, mem |-> Mem(D)]
+  ELSE IF o.k = "F" THEN
+       LET IR == XIR(c, D, g, p, o)
+           DN == DenseAll(c, D, IR, o.n)
+           FR == IF o.fft = 8 THEN FreqAll8(c, DN, o.n) ELSE FreqAll(c, DN, o.fft, o.n) IN
+       [y |-> IF o.fft = 8 THEN FreqY8(c, d, FR, SelIdx(o), o.s, o.n) ELSE XFreqY(c, FR, d, o),
+        ir |-> IR, delays |-> D.delays, mem |-> Mem(D),
+        fr |-> FR, sel |-> SelIdx(o),
+        fdbs |-> IF o.sk = "slice" THEN FloorDivBS(o) ELSE Len(SelIdx(o))]
+  ELSE IF o.k = "Gen" THEN [ir |-> XIR(c, D, g, p, o), delays |-> D.delays, mem |-> Mem(D)]
+  ELSE IF o.k = "Disc" THEN [disc |-> XDisc(o.prof)]
+  ELSE [none |-> 0]
+
+(* ---- frame conditions on the calls (notes/CALL_DISCIPLINE.md 1, 2) ---- *)
+\* ArgumentsUnchanged: the input array handed to a transmission holds the same values afterwards.
+\* (Dev.ArgumentScaledInPlace: the wrapper's in-place "output *= sqrt(path loss)" hits a result that aliases the argument)
+MInputAfter(c, d, p, o, len) ==
+  LET XS == XArr(c, d, o.s, len) IN
+  IF Dev.ArgumentScaledInPlace /\ p # 0
+    THEN E([iu \in 1..Len(XS) |-> E([ia \in 1..Len(XS[iu]) |-> E([m \in 1..Len(XS[iu][ia]) |->
+            GScaleRat(PA(c, p, 1, 1), XS[iu][ia][m])])])])
+    ELSE XS
+\* EarlierResultsUnchanged: the output and the response object the caller holds from the previous transmission still have
+\* the values they had when they were returned (Dev.OutputBufferReused: a same-shaped transmission writes its output into
+\* the array returned before)
+SameShape(h, o) == o.k = h.o.k /\ o.n = h.o.n /\ o.fft = h.o.fft /\ o.sk = h.o.sk /\ o.sel = h.o.sel /\ h.d = dir /\ h.a = ai
+MHeldAfter(then, h, o) == IF Dev.OutputBufferReused /\ SameShape(h, o)
+                            THEN [then EXCEPT !.y = ExpectedAt(C, gpos, dir, pl, o).y] ELSE then
+FrameStep ==
+  op'.k \in {"T", "F"} =>
+    LET o == op'
+        len == IF o.k = "T" THEN o.n ELSE o.n * Len(SelIdx(o))
+    IN  /\ Chk("ArgumentsUnchanged", MInputAfter(C, dir, pl, o, len) = XArr(C, dir, o.s, len))
+        /\ held.o.k \in {"T", "F"} =>
+             LET then == ExpectedAt(CfgAt(held.a), held.g, held.d, held.p, held.o) IN
+             Chk("EarlierResultsUnchanged", MHeldAfter(then, held, o) = then)
+FrameLaw == [][FrameStep]_vars
+
 
 \* time domain (and generate_impulse_response):
 \*   Reported: the reported response is the one the property demands (right samples, right scaling)
@@ -469,23 +532,9 @@ ChanLaw  == [][ChanStep]_vars
 (* ====================================================================================== *)
 (* 7. Emission: every transition with the exact observables the property demands          *)
 (* ====================================================================================== *)
-StateRec  == [gpos |-> gpos, dir |-> dir, pl |-> pl, has |-> has]
-StateRecP == [gpos |-> gpos', dir |-> dir', pl |-> pl', has |-> has']
-Expected(o) ==
-  LET c == C  D == XDisc(c.prof) IN
-  IF o.k = "T" THEN LET IR == XIR(c, D, gpos, pl, o) IN
-       [y |-> XTimeY(c, D, IR, dir, o), ir |-> IR, delays |-> D.delays, mem |-> Mem(D)]
-  ELSE IF o.k = "F" THEN
-       LET IR == XIR(c, D, gpos, pl, o)
-           DN == DenseAll(c, D, IR, o.n)
-           FR == IF o.fft = 8 THEN FreqAll8(c, DN, o.n) ELSE FreqAll(c, DN, o.fft, o.n) IN
-       [y |-> IF o.fft = 8 THEN FreqY8(c, dir, FR, SelIdx(o), o.s, o.n) ELSE XFreqY(c, FR, dir, o),
-        ir |-> IR, delays |-> D.delays, mem |-> Mem(D),
-        fr |-> FR, sel |-> SelIdx(o),
-        fdbs |-> IF o.sk = "slice" THEN FloorDivBS(o) ELSE Len(SelIdx(o))]
-  ELSE IF o.k = "Gen" THEN [ir |-> XIR(c, D, gpos, pl, o), delays |-> D.delays, mem |-> Mem(D)]
-  ELSE IF o.k = "Disc" THEN [disc |-> XDisc(o.prof)]
-  ELSE [none |-> 0]
+StateRec  == [gpos |-> gpos, dir |-> dir, pl |-> pl, has |-> has, ai |-> ai]
+StateRecP == [gpos |-> gpos', dir |-> dir', pl |-> pl', has |-> has', ai |-> ai']
+Expected(o) == ExpectedAt(C, gpos, dir, pl, o)
 \* pre/post: the machine's states (graph nodes)
 Emit == EmitEdge([cid |-> C.id, pre |-> StateRec, post |-> StateRecP, op |-> op', exp |-> Expected(op')])
 =============================================================================
